@@ -108,10 +108,15 @@ def gen_pairs(rng, mode, n_schemas, extra_opts=None):
 
 
 def run(prop, prop_file, mode, tier, seed):
+    import time
     res = Result(prop, tier, seed)
+    phases = {}
+    t0 = time.time()
     proved = common.prove(res, prop, prop_file, EXTRACT)
+    phases["coq_build_and_audit"] = round(time.time() - t0, 1); t0 = time.time()
     drv = common.build_harness("c01")
     orc = common.build_oracle("sem", ["sem_model"])
+    phases["cargo_and_oracle_build"] = round(time.time() - t0, 1); t0 = time.time()
     rng = random.Random(seed)
     cbor = mode == "cbor"
     replay_known(res, prop, mode, drv)
@@ -123,6 +128,7 @@ def run(prop, prop_file, mode, tier, seed):
     n_gen = len(pairs)
     pairs += sp
     classes += ["small-scope"] * len(sp)
+    phases["generate"] = round(time.time() - t0, 1); t0 = time.time()
     if cbor:
         impl = runner.impl_cbor(drv, pairs, rng)
         impl2 = runner.impl_cbor(drv, pairs[:n_gen], rng)        # a second random encoding of every generated document
@@ -133,6 +139,7 @@ def run(prop, prop_file, mode, tier, seed):
         impl2 = None
         model = runner.model(orc, pairs, False)
         model_alt = runner.model(orc, pairs, True)
+    phases["run_impl_and_model"] = round(time.time() - t0, 1); t0 = time.time()
     hist, split, skipped = {}, {"T": 0, "F": 0}, {"int-float-undecided": 0, "model-undecided": 0, "schema-rejected": 0}
     known_hits, distinct = {}, set()
     kf_by_id = {k["id"]: k for k in common.known_findings(prop)}
@@ -176,6 +183,7 @@ def run(prop, prop_file, mode, tier, seed):
         res.notes.append("verdict split outside 15-85%%: %r" % split)
     if skipped["schema-rejected"] > 0.02 * len(pairs):
         res.violation("generator degenerate: %d generated schemas rejected by the parser" % skipped["schema-rejected"], {"kind": "generator"}, no_input=True)
+    phases["compare"] = round(time.time() - t0, 1); t0 = time.time()
     # vm_compute slice guards the extraction
     sl_idx = rng.sample(range(len(pairs)), 100)
     sl = [pairs[i] for i in sl_idx if gen.value_size(pairs[i][1]) <= 12][:80]
@@ -185,6 +193,8 @@ def run(prop, prop_file, mode, tier, seed):
     vm_bad = [(S.cddl(), ast.val_sexp(v), x, y) for (S, v), x, y in zip(sl, vm, orc_sl) if x != y and x != "?"]
     if vm_bad:
         res.violation("extracted oracle and vm_compute disagree: %r" % (vm_bad[0],), {"kind": "extraction", "case": vm_bad[0]}, no_input=True)
+    phases["vm_compute_slice"] = round(time.time() - t0, 1)
+    res.coverage["phase_seconds"] = phases
     if not proved and not res.violations:
         res.violation(res.proof_broken, {"kind": "proof-obligation", "detail": res.proof_broken}, no_input=True)
     samples = []
